@@ -16,6 +16,7 @@
 -- models: pkg/kfake/persist.go:Cluster.loadGroupsLog
 -- models: pkg/kfake/persist.go:Cluster.loadPIDsLog
 -- models: pkg/kfake/persist.go:truncateLogFile
+-- models: pkg/kfake/persist.go:Cluster.loadSessionState
 
 Parts
  1. file system `path ↦ (synced bytes, unsynced tail)`, operations, crash;
@@ -355,6 +356,14 @@ def loadPartition (crc : Bytes → Nat) (segs : List (Nat × Bytes × Option Byt
     | some f, some l =>
       { batches := bs, hwm := l.1.last + 1, lso := l.1.last + 1, start := f.1.first, aborted := fullReplayAborted bs }
     | _, _ => {}
+
+/-- `loadSessionState`, in-progress transactions (session_state.json exists only after a clean Close): every restored
+transaction re-registers its first offset per partition and the partition's LSO is recalculated from those alone
+(`recalculateLSO`: the minimum); partitions without a restored transaction keep what `loadPartition` gave. -/
+def sessionLso (firsts : List Nat) (lso : Nat) : Nat :=
+  match firsts with
+  | [] => lso
+  | f :: r => r.foldl min f
 
 /-- group log entry meaning (annotation). -/
 inductive GEntry where
